@@ -8,6 +8,7 @@ package sim
 import (
 	"context"
 	"fmt"
+	"google.golang.org/grpc/codes"
 	"math/rand"
 	"os"
 	"runtime/debug"
@@ -194,6 +195,17 @@ func genV3Plan(seed uint64, tier string) *Plan {
 				f.On, f.N = "effect", 5+g.pick(80)
 			}
 			p.Faults = append(p.Faults, f)
+		}
+	}
+	if g.chance(1, 3) {
+		// the device definitely refuses one of the Sets (a change's or a rollback's); in half of these runs a store write
+		// right after that answer fails or loses its acknowledgement
+		p.Profile += "+device-refusal"
+		refusals := []codes.Code{codes.InvalidArgument, codes.Internal, codes.Unknown, codes.NotFound, codes.AlreadyExists, codes.FailedPrecondition, codes.Unimplemented}
+		n := 1 + g.pick(5)
+		p.Faults = append(p.Faults, Fault{Kind: "dev-error", On: "devset", Target: "t1", N: n, Code: int(refusals[g.pick(len(refusals))])})
+		if g.chance(1, 2) {
+			p.Faults = append(p.Faults, Fault{Kind: []string{"op-unavail", "op-acklost"}[g.pick(2)], On: "after-devset", Target: "t1", N: n, Burst: g.pick(3)})
 		}
 	}
 	return p
@@ -478,7 +490,19 @@ func (s *v3sys) check() {
 			st := tj.Status.Change.Apply.State
 			if st == configv3.TransactionPhaseStatus_IN_PROGRESS || st == configv3.TransactionPhaseStatus_COMPLETE {
 				if s.startedAfterFailure(uint64(i), uint64(j)) {
-					s.report("order", "applied-past-failed-change", fmt.Sprintf("history %s: change %d apply is %s although the apply of change %d is %s and has not been rolled back", v3hist(h), j, v3st(tj.Status.Change.Apply), i, v3st(ap)))
+					// shape: was a change between the failed one and this one rolled back meanwhile? (the recorded finding:
+					// rolling back an aborted successor of the failed change moves the applied cursors past the failed change)
+					shape := "applied-past-failed-change"
+					if ra := ti.Status.Rollback.Apply; ra != nil && ra.State == configv3.TransactionPhaseStatus_FAILED {
+						// its rollback was attempted and the device refused it
+						shape = "applied-past-failed-change:its-rollback-failed"
+					}
+					for k, tk := range s.txs {
+						if k > i && k < j && tk.Status.Rollback.Apply != nil && tk.Status.Rollback.Apply.State == configv3.TransactionPhaseStatus_COMPLETE {
+							shape = "applied-past-failed-change:after-rollback-of-a-change-in-between"
+						}
+					}
+					s.report("order", shape, fmt.Sprintf("history %s: change %d apply is %s although the apply of change %d is %s and has not been rolled back", v3hist(h), j, v3st(tj.Status.Change.Apply), i, v3st(ap)))
 				}
 			}
 		}
@@ -514,6 +538,11 @@ func (s *v3sys) check() {
 		if tx := s.txs[rev]; tx != nil {
 			synced := s.connUp && c.Status.State == configv3.ConfigurationStatus_SYNCHRONIZED && c.Status.Mastership != nil &&
 				c.Applied.Term == c.Status.Mastership.Term && string(c.Status.Mastership.Master) == s.inc.conns.Current("t1") && s.quiet()
+			if ap := tx.Status.Change.Apply; ap != nil && (ap.State == configv3.TransactionPhaseStatus_FAILED || ap.State == configv3.TransactionPhaseStatus_ABORTED) {
+				// the applied revision names a change that was never applied: reported as such, its values are not compared
+				s.report("consistency", "applied-revision-names-unapplied-change:"+strings.ToLower(v3st(ap)), fmt.Sprintf("applied revision is %d but the apply of change %d is %s; history %s", rev, rev, v3st(ap), v3hist(s.hist)))
+				return
+			}
 			for path, v := range tx.Values {
 				v := v
 				if got := s.appVals[path]; !pvEqual(got, &v) {
@@ -744,13 +773,23 @@ func v3Bubble(plan *Plan, res *Result) {
 				continue
 			}
 			switch f.Kind {
-			case "op-acklost":
+			case "op-acklost", "op-unavail":
+				n := f.N
+				if f.On == "after-devset" {
+					s.dev.mu.Lock()
+					due := len(s.dev.Log) >= f.N
+					s.dev.mu.Unlock()
+					if !due {
+						continue
+					}
+					n = s.rt.Writes + 1 + f.Burst
+				}
 				f.fired = true
-				s.rt.OpFaults[f.N] = "acklost"
+				s.rt.OpFaults[n] = strings.TrimPrefix(f.Kind, "op-")
 				continue
-			case "op-unavail":
+			case "dev-error":
 				f.fired = true
-				s.rt.OpFaults[f.N] = "unavail"
+				s.dev.Faults[f.N] = DevFault{Kind: "code", Code: codes.Code(f.Code)}
 				continue
 			}
 			if s.eff.N < f.N || !s.inc.up {
